@@ -246,20 +246,21 @@ def addPhase1 (s : State) (m : Mapping) : State × List Event :=
   let c := consume m s.pass
   ({ s with pass := c.1, mapped := s.mapped ++ c.2.1 }, c.2.2)
 
-/-- `add_new_mapping`, second part: the `if produces_action_key(m) { … }` block (with the fix of D5: the
-second `consume_pass_through_keys` inside `if should_absorb { … }`; with the fix of D7: the condition is
-`produces_action_key(m)` — any output key is a non-modifier — where it was `is_action_mapping(m)`, which
-looks at the last output key only). -/
+/-- `add_new_mapping`, second part: `if produces_action_key(m) { release_action_mappings }`, then
+`if should_absorb && (produces_action_key(m) || m.absorbing.len() > 0) { release_absorbed_keys; consume_pass_through_keys }`
+(with the fix of D5: the second `consume_pass_through_keys` after `release_absorbed_keys`; with the fix of D7: the
+condition is `produces_action_key(m)` — any output key is a non-modifier — where it was `is_action_mapping(m)`, which
+looks at the last output key only; with the fix of D6: keys absorbed under ANOTHER trigger are let go also when the
+firing mapping is itself absorbing, not only when it presses a non-modifier key — so every key in
+`mapped_absorbed_keys` was absorbed under the current `absorbing_trigger`). -/
 def addPhase2 (s : State) (newKey : Key) (m : Mapping) : State × List Event :=
-  if producesActionKey m then
-    let r1 := releaseActionMappings s
-    if shouldAbsorb r1.1 newKey then
-      let r2 := releaseAbsorbedKeys r1.1
-      -- fix of D5: `release_absorbed_keys` can hand keys back to pass-through; consume again
-      let r3 := addPhase1 r2.1 m
-      (r3.1, r1.2 ++ r2.2 ++ r3.2)
-    else r1
-  else (s, [])
+  let r1 := if producesActionKey m then releaseActionMappings s else (s, [])
+  if shouldAbsorb r1.1 newKey && (producesActionKey m || decide (m.absorbing.length > 0)) then
+    let r2 := releaseAbsorbedKeys r1.1
+    -- fix of D5: `release_absorbed_keys` can hand keys back to pass-through; consume again
+    let r3 := addPhase1 r2.1 m
+    (r3.1, r1.2 ++ r2.2 ++ r3.2)
+  else r1
 
 /-- `add_new_mapping`, third part: the press loop over `m.to`, the absorbing bookkeeping, and the
 push of `m` onto the active list. -/
